@@ -235,13 +235,32 @@ func pathTo(pred map[*ssa.Function]*ssa.Function, f *ssa.Function) []string {
 // callers returns the call sites (in orda, non-test) that may call f.
 func (v *cgView) callers(f *ssa.Function) []ssa.CallInstruction {
 	var out []ssa.CallInstruction
-	if n := v.g.Nodes[f]; n != nil {
+	seen := map[*ssa.Function]bool{}
+	var walk func(f *ssa.Function)
+	walk = func(f *ssa.Function) {
+		if seen[f] {
+			return
+		}
+		seen[f] = true
+		n := v.g.Nodes[f]
+		if n == nil {
+			return
+		}
 		for _, e := range n.In {
-			if e.Site != nil && v.keep(e.Caller.Func) {
+			if e.Site == nil {
+				continue
+			}
+			if e.Caller.Func.Synthetic != "" {
+				// promoted-method and bound-method wrappers are transparent
+				walk(e.Caller.Func)
+				continue
+			}
+			if v.keep(e.Caller.Func) {
 				out = append(out, e.Site)
 			}
 		}
 	}
+	walk(f)
 	return out
 }
 
